@@ -77,9 +77,9 @@ impl Bin {
 }
 
 // `CSIv1.pdf` (2020-07-21)
-const fn bin_limit(depth: u8) -> i32 {
+const fn bin_limit(depth: u8) -> i64 {
     assert!(depth <= 10);
-    (1 << ((depth + 1) * 3)) / 7
+    (1 << ((depth as u32 + 1) * 3)) / 7
 }
 
 #[cfg(test)]
